@@ -299,7 +299,7 @@ def install_lp(reg, src):
     DOT = sym.fn("DOT", sym.RealArr, sym.I, sym.RealArr, sym.R)        # sum_{j<n} a[j] * x[j]
     ZENV = z3.K(sym.Name, sym.rv(0))
     NOT_LPX = ("ElementwisePower", "ElementwiseUnary", "L2Norm", "L1Norm", "VectorUnarySum", "MatrixSum", "FrobeniusNorm",
-               "VectorExpressionSum", "DotProduct", "QuadraticForm", "VectorPowerSum", "Parameter", "VectorSum|VectorExpression")
+               "VectorExpressionSum", "DotProduct", "QuadraticForm", "Parameter", "VectorSum|VectorExpression")
     lin_cases = [c for c in degree_cases(src) if not c.startswith(NOT_LPX)
                  and not (c.startswith("UnaryOp:") and c != "UnaryOp:neg")]
 
@@ -367,6 +367,19 @@ def install_lp(reg, src):
         c.requires(linear(sp, e), name="linear expression")
         c.returns(T.real("float"))
         c.ensures("constant", lambda res: real_term(res) == sp.den(e, ZENV, sp.PV))
+        if c.verifying and case == "VectorPowerSum":
+            # sum_{k<n} x_k ** 0 = n : instance of psum_const (lean: Finset.sum_const) for the array of powers at the zero point
+            from .seqtheory import VLEN, register_vector, skolem
+            from .vecspec import FV
+            r = sp.ref(e)
+            v = FV(sp, r)
+            register_vector(sp, v, None, ZENV, sp.PV)
+            sp.den(e, ZENV, sp.PV)
+            arrZ = sym.fn("A_pows", sym.Ref, sym.EnvSort, sym.PVSort, sym.RealArr)(r, ZENV, sp.PV)
+            nn = VLEN(v)
+            skc = skolem(c.ip, "sk_const", nn)
+            c.ip.reg.index_used(c.ip, skc)
+            c.assume(z3.Or(z3.And(skc >= 0, skc < nn, z3.Select(arrZ, skc) != 1), sp.S.PSUM(arrZ, nn) == sym.to_real(nn)))
         if c.verifying and case == "LinearCombination|VectorExpression":
             # (present after the D9 repair) weighted sum of the elements' constants:  total = sum_{k<i} c_k * [[elem_k]](0)
             from .seqtheory import VLEN, register_vector
@@ -440,6 +453,27 @@ def install_lp(reg, src):
                 c.loop(2, inv, havoc=hv)
             else:
                 c.loop(3, inv, havoc=hv)
+        if kind == "VectorPowerSum":
+            # (arm present after the D24 repair) sum(x ** 1): like VectorSum, over the array of powers
+            v = FV(sp, r)
+            register_vector(sp, v, None, sp.E, sp.PV)
+            register_vector(sp, v, None, ZENV, sp.PV)
+            sp.den(e, sp.E, sp.PV); sp.den(e, ZENV, sp.PV)
+            arrE = sym.fn("A_pows", sym.Ref, sym.EnvSort, sym.PVSort, sym.RealArr)(r, sp.E, sp.PV)
+            arrZ = sym.fn("A_pows", sym.Ref, sym.EnvSort, sym.PVSort, sym.RealArr)(r, ZENV, sp.PV)
+
+            from .seqtheory import skolem as _sk
+            for arr_ in (arrE, arrZ):     # power 0: every entry is 1, the sum is n   (lean: psum_const / Finset.sum_const)
+                skc = _sk(c.ip, "sk_const", VLEN(v))
+                c.ip.reg.index_used(c.ip, skc)
+                c.assume(z3.Or(z3.And(skc >= 0, skc < VLEN(v), z3.Select(arr_, skc) != 1),
+                               sp.S.PSUM(arr_, VLEN(v)) == sym.to_real(VLEN(v))))
+
+            def inv4(st):
+                dot_update_lemmas(c.ip, res.arr, n, X.arr, X)
+                return DOT(res.arr, n, X.arr) == DOT(old, n, X.arr) + mt * (sp.S.PSUM(arrE, st.i) - sp.S.PSUM(arrZ, st.i))
+            c.loop(4, inv4, havoc={"__mutated__": lambda ip, fr: setattr(res, "arr", sym.fresh("result_loop", sym.RealArr)),
+                                   "idx": T.opt(T.int_())})
     reg.lp = dict(DOT=DOT, ZENV=ZENV, point=point, linear=linear, dot_update_lemmas=dot_update_lemmas, lin_cases=lin_cases)
 
 
